@@ -111,6 +111,31 @@ def kernel_cases(ctx, with_model=True):
             mv = np.array([V.unbits(t) for t in o[1].split()])
             ctx.corr(abs(mz - Bz[0]) <= 1e-12 * scale[0], "bsZ (Lean, Float) vs _biot_savart_2d_z", dict(model=mz, impl=float(Bz[0])))
             ctx.corr(bool((np.abs(mv - Bv[0]) <= 1e-12 * scale[0]).all()), "bsVec (Lean, Float) vs _biot_savart_2d_vector", dict(model=mv.tolist(), impl=Bv[0].tolist()))
+    # edge -> site reconstruction (every field of a solution starts from it): linear, and equal to the Lean `onSite`
+    for kind in (("bar_hole", "ring") if ctx.quick else ("bar_hole", "ring", "union", "cross4")):
+        dev_ = zoo.make_device(kind, rng, max_edge_length=1.0)
+        m_ = dev_.mesh
+        em_ = m_.edge_mesh
+        q1, q2 = rng.normal(size=len(em_.edges)), rng.normal(size=len(em_.edges))
+        a_, b_ = rng.normal(size=2)
+        S1, S2, S12 = m_.get_quantity_on_site(q1), m_.get_quantity_on_site(q2), m_.get_quantity_on_site(a_ * q1 + b_ * q2)
+        el = float(np.abs(S12 - (a_ * S1 + b_ * S2)).max() / (np.abs(S12).max() + 1e-300))
+        ctx.case(("onsite", kind, len(em_.edges)), nontrivial=True)
+        ctx.count("onsite_meshes")
+        ctx.tol("get_quantity_on_site linearity", el, 1e-12)
+        if el > 1e-12:
+            fail("onsite-not-linear", f"get_quantity_on_site is not linear in the edge quantity (rel {el:.2e})", err=el, device=kind)
+        if np.abs(m_.get_quantity_on_site(np.zeros(len(em_.edges)))).max() != 0.0:
+            fail("onsite-zero", "get_quantity_on_site of a zero current is not zero", device=kind)
+        if with_model:
+            sites_ = rng.choice(len(m_.sites), size=min(40, len(m_.sites)), replace=False)
+            nd = em_.normalized_directions
+            outl = V.driver([f"onsite | {' '.join(str(int(x)) for x in em_.edges[:, 0])} | {' '.join(str(int(x)) for x in em_.edges[:, 1])} | {zoo.fl(nd[:, k])} | {zoo.fl(q1)} | {' '.join(str(int(x)) for x in sites_)}" for k in (0, 1)])
+            ctx.traces += 1
+            mod = np.array([[V.unbits(t) for t in line.split()] for line in outl]).T
+            worst_ = float(np.abs(mod - S1[sites_]).max() / (np.abs(S1).max() + 1e-300))
+            ctx.tol("onSite (Lean, Float) vs get_quantity_on_site (rel)", worst_, 1e-13)
+            ctx.corr(worst_ <= 1e-13, "onSite (Lean, Float) vs Mesh.get_quantity_on_site", dict(device=kind, worst=worst_))
     # distance kernels
     for dim in (2, 3):
         XA, XB = rng.normal(size=(17, dim)), rng.normal(size=(23, dim))
